@@ -179,6 +179,6 @@ pub fn def() -> PropertyDef {
                per-layout sample resolution and equality of the layout-free description (tracks, headers, config, timing, samples with bytes, udta) \
                are compared; non-trivial = >=2 samples and moov >= 1 KiB",
         assumptions: &["a resolution failure that is identical in both layouts is attributed to C01 and only counted here"],
-        subs: vec![Box::new(PSub { name: "layouts", quick: 8000, thorough: 250000, strat, eval })],
+        subs: vec![Box::new(PSub { name: "layouts", quick: 8000, thorough: 250000, strat, eval }), Box::new(LSub { name: "long_recordings", cases: long_cases_all, eval, note: LONG_NOTE })],
     }
 }
